@@ -3,6 +3,11 @@ import FoxModel.Driver.Serve
 import FoxModel.Driver.ClientIP
 import FoxModel.Driver.Recorder
 import FoxModel.Driver.Recovery
+import FoxModel.Driver.Clean
+import FoxModel.Driver.Logger
+import FoxModel.Driver.Txn
+import FoxModel.Driver.Hist
+import FoxModel.Driver.Parked
 /-
   foxmodel — line-protocol driver: one case per input line (tab separated, first field = stream name),
   one output line per case. Core Lean only (links without Mathlib).
@@ -17,6 +22,13 @@ def dispatch (line : String) : String :=
   | some "clientip" => Driver.ClientIP.handle fields
   | some "rw" => Driver.Recorder.handle fields
   | some "recovery" => Driver.Recovery.handle fields
+  | some "clean" => Driver.Clean.handle fields
+  | some "cleanredir" => Driver.Clean.handleRedir fields
+  | some "logger" => Driver.Logger.handle fields
+  | some "txn" => Driver.Txn.handle fields
+  | some "chist" => Driver.Hist.handleHist fields
+  | some "conc" => Driver.Hist.handleConc fields
+  | some "parked" => Driver.Parked.handle fields
   | some "hist" => Driver.Ops.handle (fields.take 2)
   | _ => "M=unknown-stream"
 
